@@ -260,63 +260,34 @@ theorem not_catchable_same_entry (stack : List Frame) : (unwind false stack).1 =
   | cons f rest ih => cases hb : f.barrier <;> simp [unwind, hb, ih]
 
 /-- … and it is not delivered to any catch of any enclosing entry either: for every call stack —
-any number of nested entries, open handlers anywhere — a timeout reaches the host, PROVIDED no
-native caller on the way replaces the error by a string error (`stringifies`). Exactly that is
-excluded: `run_display` / `run_debug_op` do it when they render a container with an element that has
-a Koto `@display` (F-C08-4, negation below). -/
-theorem not_catchable_nested_partial (stack : List Frame) (h : ∀ f ∈ stack, f.stringifies = false) :
-    deliverTimeout stack = .escaped .timeout := by
-  rw [deliverTimeout_flat]; exact flat_timeout_escaped stack h
+any number of nested entries, open handlers anywhere — a timeout reaches the host, and reaches it as
+a timeout. A script cannot swallow it.
+(History: before 5a7e832 the re-raise in the enclosing entry used `allow_catch = true`, F-C08-1;
+before 5d8bf61 / 9cbdb4e `run_display` / `run_debug_op` replaced the error of a nested `@display` by
+the string error "failed to get display value", F-C08-4: `m = {@display: || loop ()}`,
+`try x = '{[m]}' catch e …` swallowed the timeout. Both negations were proved about the model of that
+code and replayed; their witnesses are now ordinary cases of the sweep and must escape.) -/
+theorem not_catchable_nested (stack : List Frame) : deliverTimeout stack = .escaped .timeout := by
+  rw [deliverTimeout_flat]; exact flat_timeout_escaped stack
 
-/-- handlers are irrelevant for a timeout (same proviso): any two such stacks give the same delivery -/
-theorem timeout_handlers_irrelevant (s1 s2 : List Frame)
-    (h1 : ∀ f ∈ s1, f.stringifies = false) (h2 : ∀ f ∈ s2, f.stringifies = false) :
-    deliverTimeout s1 = deliverTimeout s2 := by
-  rw [not_catchable_nested_partial s1 h1, not_catchable_nested_partial s2 h2]
-
-/-- The negation for a stringifying native caller (= the code, F-C08-4):
-`m = {@display: || loop ()}`, `try x = '{[m]}' catch e …` — `@display` runs in a nested entry started
-by `run_display`'s rendering of the list; the timeout comes back as the string error
-"failed to get display value" and handler 7 of the main chunk catches it. -/
-theorem catchable_stringified_witness :
-    deliverTimeout [⟨[], true, true⟩, ⟨[7], true, false⟩] = .caught 7 1 := by decide
-
-/-- … and without any handler the host still does not receive a timeout error but the string error
-(same finding: `x = '{[m]}'` alone ends with "failed to get display value") -/
-theorem stringified_reaches_host_as_other_witness :
-    deliverTimeout [⟨[], true, true⟩, ⟨[], true, false⟩] = .escaped .other := by decide
-
-/-- … in general: below a stringifying entry a timeout is delivered like an ordinary error -/
-theorem catchable_stringified (top below : List Frame) (f : Frame) (h : Nat)
-    (htop : ∀ g ∈ top, g.barrier = false) (hb : f.barrier = true) (hs : f.stringifies = true)
-    (hh : firstHandler below = some h) :
-    ∃ n, deliverTimeout (top ++ f :: below) = .caught h n := by
-  rw [deliverTimeout_flat]
-  have key : deliverFlat .timeout false (top ++ f :: below) = deliverFlat .other true below := by
-    induction top with
-    | nil => simp [deliverFlat, hb, Frame.cross, hs, ErrKind.allowCatch]
-    | cons g rest ih =>
-      have hg : g.barrier = false := htop g (by simp)
-      have := ih (fun x hx => htop x (by simp [hx]))
-      simp [deliverFlat, hg, this]
-  rw [key]
-  obtain ⟨n, hn, _⟩ := (flat_true_handler below).1 h hh
-  exact ⟨n, hn⟩
+/-- handlers are irrelevant for a timeout: two stacks of any shape give the same delivery -/
+theorem timeout_handlers_irrelevant (s1 s2 : List Frame) : deliverTimeout s1 = deliverTimeout s2 := by
+  rw [not_catchable_nested, not_catchable_nested]
 
 /-- the former witness of F-C08-1: callback frame = nested entry, handler 7 open in the main chunk -/
-example : deliverTimeout [⟨[], true, false⟩, ⟨[7], true, false⟩] = .escaped .timeout := by decide
+example : deliverTimeout [⟨[], true⟩, ⟨[7], true⟩] = .escaped .timeout := by decide
 
 /-- handler in a middle entry, two nested entries above it -/
-example : deliverTimeout [⟨[], true, false⟩, ⟨[], false, false⟩, ⟨[3], true, false⟩, ⟨[9], true, false⟩] = .escaped .timeout := by
+example : deliverTimeout [⟨[], true⟩, ⟨[], false⟩, ⟨[3], true⟩, ⟨[9], true⟩] = .escaped .timeout := by
   decide
 
 /-- a plain call chain with handlers at every level of one entry -/
-example : deliverTimeout [⟨[1], false, false⟩, ⟨[2, 3], false, false⟩, ⟨[4], true, false⟩] = .escaped .timeout := by decide
+example : deliverTimeout [⟨[1], false⟩, ⟨[2, 3], false⟩, ⟨[4], true⟩] = .escaped .timeout := by decide
 
 /-- ordinary errors on the same stacks are caught by the innermost handler (the statement about
 timeouts is not vacuous: delivery does reach handlers — across entries — for other kinds) -/
-example : deliverError [⟨[1], false, false⟩, ⟨[2, 3], false, false⟩, ⟨[4], true, false⟩] = .caught 1 3 := by decide
-example : deliverError [⟨[], true, false⟩, ⟨[7], true, false⟩] = .caught 7 1 := by decide
+example : deliverError [⟨[1], false⟩, ⟨[2, 3], false⟩, ⟨[4], true⟩] = .caught 1 3 := by decide
+example : deliverError [⟨[], true⟩, ⟨[7], true⟩] = .caught 7 1 := by decide
 
 /-- ordinary errors: delivered to the dynamically innermost open handler across entries; to the
 host iff no handler is open -/
